@@ -16,9 +16,25 @@ round trips (harness/stublife.py, real code only): for every AST x - the inferre
   Serialize(decoded.ast); digests of the structure of the canonically ordered original (as
   SerializeAst defines it), of the decoded AST and of the three byte strings are recorded and TLC
   judges  struct(decode(encode x)) = struct(canonical x)  and  b2 = b1, b3 = b1.
+  Strengthened (DESIGN 11.23): (1) a further origin of ASTs - stub TEXT read through
+  serialize_ast.SourceToExportableAst (parse_pickle --pyi, PrepareForExport), which leaves the AST
+  in a MIXED class-pointer state: specs/ExportStubs.tla enumerates module name x holder x union of
+  same-constructor members over leaves of every pointer kind (+ enum-valued literals), and every
+  StubGen stub is printed and re-read under one of the spec's module names; two more steps on the
+  bytes line: Again (Serialize the SAME ast object a second time: b4 = b1) and Reorder (canonical
+  ordering of the decoded AST changes nothing: s2 = s1); canonical(x) is computed on a pointer-free
+  copy.  (2) the node line Hash -> Clear -> Found on every AST: hashes of its type nodes before /
+  after Serialize cleared the pointers in place, membership in a set built before, the decoded
+  AST's nodes against that set.
 equality law: the real node is built for every exported term; for every ordered pair a == b,
   hash(a) == hash(b), len({a, b}) and len({a: 1, b: 2}) are observed; TLC judges `==` against
   SpecEq, a == b => equal hashes, equal nodes collapse in sets / dicts.
+  Strengthened: a pointer-state dimension - PytdEq exports the term list in the ClassType dialect
+  as well; cross rows compare every term built WITH class pointers (filled in by the real
+  FillInLocalPointers inside a module) against every term built WITHOUT; life rows follow one node
+  object per term through Fill -> Clear (Serialize) -> Decode -> Refill (PytdTerms.LifeOps) and
+  record hash / set membership / equality at each step; enum-member and class-valued Literals are
+  part of the alphabet.
 """
 import argparse
 import concurrent.futures as cf
@@ -39,9 +55,47 @@ KEY_ORDER = "C12:union-hash-depends-on-member-order"
 KEY_LIT = "C12:literal-raw-bool-equals-int"
 
 
+KEY_PTR = "C12:%s-across-pointer-states:%s~%s"
+
+
 def eq_consts(names, deep=True):
-  return ('CONSTANTS NarrowNames = {%s}\n UnionLits = {"int:1", "pybool:True"}\n Deep = %s\n'
+  return ('CONSTANTS NarrowNames = {%s}\n UnionLits = {"int:1", "pybool:True", "enum:E.X"}\n Deep = %s\n'
           % (", ".join('"%s"' % n for n in names), "TRUE" if deep else "FALSE"))
+
+
+def tla_set(xs):
+  return "{%s}" % ", ".join('"%s"' % x for x in xs)
+
+
+# specs/ExportStubs.tla: module name x holder x type
+MIX_QUICK = dict(mods=("app", "pkg.mod", "typing_x", "utils"), holders=("param", "const"),
+                 unary=("list", "typing.Sequence"), binary=("typing.Mapping", "tuple"),
+                 leaves1=("A", "int", "typing.Hashable", "collections.OrderedDict"), leaves2=("int", "str"),
+                 triples=False)
+MIX_THOROUGH = dict(mods=("app", "pkg.mod", "typing_x", "utils", "zoo.views"),
+                    holders=("param", "ret", "const", "attr", "alias"),
+                    unary=("list", "typing.Sequence"), binary=("typing.Mapping", "tuple", "callable"),
+                    leaves1=("A", "int", "typing.Hashable", "typing.Sized", "collections.OrderedDict", "Any"),
+                    leaves2=("int", "str", "A"), triples=True)
+
+
+def mix_model(c):
+  """TLC enumerates ExportStubs.tla (every stub is well-formed, flags consistent) and exports it."""
+  cfg = ("SPECIFICATION Spec\nCONSTANTS ModNames = %s\n Holders = %s\n Unary = %s\n Binary = %s\n"
+         " Leaves1 = %s\n Leaves2 = %s\n Triples = %s\nINVARIANT WellFormed\nINVARIANT FlagsOK\n"
+         "INVARIANT ExportInv\n" % (tla_set(c["mods"]), tla_set(c["holders"]), tla_set(c["unary"]),
+                                   tla_set(c["binary"]), tla_set(c["leaves1"]), tla_set(c["leaves2"]),
+                                   "TRUE" if c["triples"] else "FALSE"))
+  r = tlc.run("ExportStubs", cfg, workers=1, timeout=3000, heap="4g")
+  if r.violated or not r.ok:
+    raise common.Machinery("ExportStubs.tla violates %s:\n%s" % (r.violated, (r.error_trace or r.out)[-2500:]))
+  common.require(len(r.cases) == r.distinct and r.cases, "ExportStubs exported %d of %d stubs" % (len(r.cases), r.distinct))
+  # the spec's claims about the position of the module names are claims about Python's string order
+  for c_ in r.cases:
+    m = c_["mod"] + "."
+    pos = "before-builtins" if m < "builtins." else "between" if m < "typing." else "after-typing"
+    common.require(pos == c_["pos"], "ExportStubs.tla places module %s %s, Python's order says %s" % (c_["mod"], c_["pos"], pos))
+  return r
 
 
 def trace_cfg(names):
@@ -52,16 +106,18 @@ def trace_cfg(names):
 def eq_model(names):
   """TLC on the equality law alone (all ordered pairs) + export of the term list."""
   r = tlc.run("PytdEq", "SPECIFICATION EqSpec\n" + eq_consts(names) +
-              "INVARIANT Reflexive\nINVARIANT Symmetric\nINVARIANT CanonAgrees\nINVARIANT DepthOK\n",
+              "INVARIANT Reflexive\nINVARIANT Symmetric\nINVARIANT CanonAgrees\nINVARIANT DepthOK\n"
+              "INVARIANT DialectIdem\nINVARIANT DialectCoarser\nINVARIANT DialectCanon\nINVARIANT DialectPtr\n",
               workers=4, timeout=3000)
   if r.violated or not r.ok:
     raise common.Machinery("PytdEq.tla violates %s:\n%s" % (r.violated, (r.error_trace or r.out)[-2500:]))
   x = tlc.run("PytdEq", "INIT EqInit\nNEXT EqNext\n" + eq_consts(names) + "INVARIANT ExportTerms\n",
               workers=1, timeout=3000)
   common.require(len(x.cases) == 1, "PytdEq exported %d term lists" % len(x.cases))
-  terms = x.cases[0]["terms"]
+  terms, ct = x.cases[0]["terms"], x.cases[0]["ct"]
   common.require(r.distinct == len(terms) ** 2, "PytdEq: %d pairs for %d terms" % (r.distinct, len(terms)))
-  return r, terms
+  common.require(len(ct) == len(terms), "PytdEq: %d dialect terms for %d terms" % (len(ct), len(terms)))
+  return r, terms, ct
 
 
 def strip(evs):
